@@ -141,8 +141,9 @@ def c03(tier, seed):
     ojobs = []
     for i, cfg in enumerate(_graphs(seed + 350, 6 if quick else 48, tie_every=0, handmade=0, max_window=4)):
         for mode in ("continuous", "wall"):
+            # thorough: every third graph runs on free threads (wall clock: the real clock, real sleeps); the rest under the gate
             ojobs.append(dict(kind="pyfunc", module="harness.order", func="order_job", id=f"c03o{i}{mode[0]}", cfg=cfg, seed=seed + i, mode=mode,
-                              nsteps=6 if quick else 10, episodes=2 if quick else 4, policy=POLICIES[i % 5], timeout=600))
+                              nsteps=6 if quick else 10, episodes=2 if quick else 4, policy=POLICIES[i % 5], gated=(quick or i % 3 != 2), timeout=600))
     ostats = engine.run_order_campaign(rep, ojobs)
     rep.assumptions += ["exact tier: times on the 1/64 s grid (DESIGN 3.1); continuous distributions (Normal, mixtures) and wall-clock episodes (gate, virtual "
                         "time) are covered by the order-only tier RexOrder: order relations between recorded values, not the values themselves",
